@@ -254,7 +254,9 @@ def analysisWith (m : Nat) (W : World) (rq : Request) (fn : Fn) (named : List (S
     let fis' := match entryPathOf rq fn with
       | some p => fis.withPath p
       | none => fis
-    let paths := allStorePaths [] fis'
+    match allStorePaths [] fis' with
+    | .error e => .error e
+    | .ok paths =>
     if nonTerminalLeaves (paths.map (fun pk => segsOf pk.1)) ≠ [] then .error .overlappingPath else
     match bindRun fn.params (rq.args.map RVal.py) (rq.kwargs.map (fun kv => (kv.1, RVal.py kv.2))) 0 with
     | none => .error .missingArg
